@@ -8,6 +8,9 @@ open TLVerif.Util TLVerif.Prim
 structure Schema where
   cfg : Cfg
   desc : Desc
+  /-- extra per-schema data registered by `codec.ext <sid> <key> <tokens…>` lines (e.g. the generator's per-field
+  decisions used by the C18 model); looked up by key -/
+  ext : List (String × List String) := []
 
 abbrev DState := List (String × Schema)
 
